@@ -200,7 +200,10 @@ fn finish_input_object(sch: &Sch, td: &TypeDef, provided: IndexMap<String, Optio
     if td.one_of {
         let present: Vec<_> = provided.iter().filter(|(_, v)| v.is_some()).collect();
         if provided.len() != 1 || present.len() != 1 {
-            return err("oneOf input object needs exactly one field");
+            // fields bound to omitted variables: the oneOf RFC rejects them statically (a validation rule), run-time
+            // coercion of what remains is not specified separately -> no verdict demanded
+            let dont_care = provided.len() != present.len();
+            return Err(CoErr { msg: "oneOf input object needs exactly one field".into(), dont_care });
         }
         let (k, v) = present[0];
         if *v == Some(CV::Null) {
